@@ -14,8 +14,9 @@ MU = 1_000_000
 
 
 def q(x):
-    """rad/us -> integer micro-units (exact for the lattices used)."""
-    return int(round(float(x) * MU))
+    """rad/us -> integer micro-units (exact for the lattices used); limits beyond +-1000 rad/us are
+    clamped (TLC integers are 32 bit; no reachable sample comes near such a limit)."""
+    return max(-1_000_000_000, min(1_000_000_000, int(round(float(x) * MU))))
 
 
 def default_eom(e):
@@ -76,6 +77,9 @@ def make_device(dev, name="vdev"):
 
 
 def real_channel(device, dev, k):
+    if "ids" in dev:      # device dictionary built FROM a real device (recorded traces)
+        i = dev["ids"][k - 1]
+        return device.channels[i] if i in device.channels else device.dmm_channels[i]
     c = dev["chs"][k - 1]
     if c["kind"] == "dmm":
         n = sum(1 for x in dev["chs"][:k - 1] if x["kind"] == "dmm")
@@ -84,6 +88,8 @@ def real_channel(device, dev, k):
 
 
 def real_id(dev, k):
+    if "ids" in dev:
+        return dev["ids"][k - 1]
     c = dev["chs"][k - 1]
     if c["kind"] == "dmm":
         n = sum(1 for x in dev["chs"][:k - 1] if x["kind"] == "dmm")
@@ -122,7 +128,8 @@ def dev_record(device, dev):
         "maxSeq": -1 if device.max_sequence_duration is None else int(device.max_sequence_duration),
         "reusable": bool(device.reusable_channels),
         "slm": bool(device.supports_slm_mask),
-        "chs": [chan_record(real_channel(device, dev, k)) for k in range(1, len(dev["chs"]) + 1)],
+        "chs": [chan_record(real_channel(device, dev, k))
+                for k in range(1, len(dev["ids"] if "ids" in dev else dev["chs"]) + 1)],
     }
 
 
